@@ -884,7 +884,7 @@ func runC19Conc(ch *core.Chooser, env *Env, out *Outcome) *Outcome {
 		out.Violation = &Violation{Class: "deadlock", Detail: fmt.Sprintf("fault plan %v: no task enabled after %d steps", env.Params, res.Steps)}
 		return out
 	case res.StepCap:
-		out.Violation = &Violation{Class: "no-progress", Detail: fmt.Sprintf("fault plan %v: step cap %d exceeded", env.Params, p.cfg.StepCap)}
+		out.Violation = &Violation{Class: "no-progress", Detail: fmt.Sprintf("fault plan %v: twice the step cap %d exceeded, the second half under a fair least-recently-run schedule", env.Params, p.cfg.StepCap)}
 		return out
 	}
 
